@@ -1345,7 +1345,8 @@ class Spec:
     lean_targets = ["Mhd.Props.C12", "drv_dauth"]
     required_theorems = ["Mhd.C12.class_is_expected", "Mhd.C12.no_header", "Mhd.C12.ok_iff_rfc_valid",
                          "Mhd.C12.expected_ok_iff_valid", "Mhd.C12.parsed_header", "Mhd.C12.digest_check_class",
-                         "Mhd.C12.digest_check_ok_iff", "Mhd.C12.rendering_independent", "Mhd.C12.accepted_is_valid",
+                         "Mhd.C12.digest_check_ok_iff", "Mhd.C12.rendering_independent", "Mhd.C12.parser_guarantees",
+                         "Mhd.C12.digest_check_ok_iff_any_request", "Mhd.C12.no_client_panic", "Mhd.C12.accepted_is_valid",
                          "Mhd.C12.reject_realm", "Mhd.C12.reject_username", "Mhd.C12.reject_uri",
                          "Mhd.C12.reject_algorithm", "Mhd.C12.reject_qop", "Mhd.C12.response_is_rfc_value",
                          "Mhd.C12.reject_expired", "Mhd.C12.reject_unregistered", "Mhd.C12.reject_other_conditions",
@@ -1447,6 +1448,12 @@ def replay(ctx, path):
     if hrc != 0:
         print(herr[-3000:])
     print("recorded verdict:", r.get("kind"), r.get("detail"))
-    bad = hrc != 0 or ho != mo[:len(ho)] or r.get("kind") == "oracle"
+    still = False
+    if r.get("kind") == "oracle" and " | code: " in (r.get("detail") or "") and ho:
+        # the stored script carries no semantic credential; the oracle's objection stands as long as the
+        # code still gives the answer it objected to
+        still = ho[len(r["input"]) - 1][:300] == r["detail"].split(" | code: ", 1)[1] if len(ho) >= len(r["input"]) else True
+        print("code still gives the answer the oracle rejected:", still)
+    bad = hrc != 0 or ho != mo[:len(ho)] or still
     print("verdict:", "FAIL" if bad else "pass")
     return 1 if bad else 0
